@@ -10,6 +10,7 @@ import (
 	"flag"
 	"fmt"
 	"os"
+	"path/filepath"
 	"strings"
 )
 
@@ -63,6 +64,16 @@ func emit(line string) {
 }
 
 func main() {
+	// started through one of the links of the ca65 tool directory (see ca65ToolDir): this binary in the role of the
+	// assembler or of the linker of the two step ca65 tool chain
+	switch filepath.Base(os.Args[0]) {
+	case "ca65":
+		fakeCa65Main(os.Args[1:])
+		return
+	case "cl65":
+		fakeCl65Main(os.Args[1:])
+		return
+	}
 	if len(os.Args) < 2 {
 		fmt.Fprintln(os.Stderr, "usage: corr <stream> [flags]")
 		os.Exit(2)
